@@ -69,10 +69,10 @@ func (r Float32) MAX(a, b Float32) Scalar {
 }
 /* -------------------------------------------------------------------------- */
 func (c Float32) ABS(a Float32) Scalar {
-  if c.Sign() == -1 {
-    c.NEG(a)
-  } else {
-    c.SET(a)
+  switch a.Sign() {
+  case -1: c.NEG(a)
+  case 0: c.Reset()
+  case 1: c.SET(a)
   }
   return c
 }
